@@ -351,9 +351,11 @@ func TestVerif_C14_readers(t *testing.T) {
 			// andybalholm/brotli v1.1.1 Reader.Read proxies the source's io.EOF whenever all input
 			// so far was consumed, finished stream or not: the library itself reports a clean end
 			class = "br-truncated-eof"
-		case st.alg == "zstd" && st.kind == "srcerr" && term == "eof":
+		case st.alg == "zstd" && st.kind == "srcerr" && gotTerm == "eof":
 			// klauspost/compress zstd frameDec.reset maps io.ErrUnexpectedEOF from the source to
-			// io.EOF when it strikes exactly at a frame boundary (offset 0 included)
+			// io.EOF when it strikes exactly at a frame boundary (offset 0 included); the reference
+			// (verifc14.RefSched) and the model report the source's failure, as ZstdReader does once
+			// fixes/C14-12 is applied - the clean EOF of the unpatched reader is the known finding
 			class = "zstd-source-error-at-frame-boundary"
 		case st.alg == "br" && strings.HasPrefix(term, "err") && len(extra) > 0 && closeAfter < 0:
 			// the library is not sticky (error, then io.EOF) and BrotliReader.berr is never set
